@@ -26,3 +26,7 @@ package plan
 //@     invariant forall j :: forall k :: has(inverse, j) && has(inverse, k) && j != k && inverse[j] != nil ==> arr(inverse[j]) != arr(inverse[k])
 //@     invariant forall k :: visited(1, k) ==> has(inverse, k)
 //@     invariant forall k :: visited(1, k) ==> sortedInts(inverse[k])
+
+// C09, variable renaming is transparent: the planner's runtime callbacks look variables up by canonical name and
+// therefore never read the raw request variables (resolve.Context.Variables); they go through VariablesView().
+//@ decl noreads resolve.Context.Variables
